@@ -87,7 +87,7 @@ def run_cfg(ctx, p, cfg):
         n = 0
         for t in tr_sites:
             tf = t.fn
-            e = t.arg(1)
+            e = q.bool_value(tf, t.t["args"][1])
             atoms = [deep_strip(a) for a in q.bool_atoms(e)]
             param_atoms = [a for a in atoms if a[0] == "param"]
             sites = [c for c in ctxs if c.callee == tf.path] if tf.path == g.path else [None]
